@@ -108,6 +108,7 @@ class System:
         self.solver = z3.SolverFor("QF_BV")
         self.atomics = list(world.atomics)
         self.chans = list(world.chans)
+        self.notifies = list(getattr(world, "notifies", []))
         self.cap = {c: int(world.chan_cap[c]) for c in self.chans}
         self.t0 = time.time()
         self._build()
@@ -119,6 +120,7 @@ class System:
               "buf": {c: [z3.BitVec(f"buf_{c}_{j}_{s}", SW) for j in range(self.cap[c])] for c in self.chans},
               "node": [z3.BitVec(f"node_{t.name}_{s}", NW) for t in self.threads],
               "call": [z3.BitVec(f"call_{t.name}_{s}", NW) for t in self.threads],
+              "gen": {n: z3.BitVec(f"gen_{n}_{s}", SW) for n in self.notifies},
               "underflow": z3.Bool(f"underflow_{s}")}
         return st
 
@@ -133,6 +135,8 @@ class System:
         for c in self.chans:
             S.add(st0["len"][c] == 0)
         S.add(st0["underflow"] == False)
+        for n in self.notifies:
+            S.add(st0["gen"][n] == 0)
         self.variant = []
         for ti, t in enumerate(self.threads):
             S.add(st0["call"][ti] == 0)
@@ -186,7 +190,7 @@ class System:
                 for guard, ch, _ in n.children:
                     # the transition n -> ch executes ch's operation (or finishes the call if ch is a leaf)
                     g = t.subst(guard, ch.names if not ch.leaf else ch.names)
-                    upd = {"val": {}, "len": {}, "buf": {c: {} for c in self.chans}, "node": None, "call": None, "underflow": None}
+                    upd = {"val": {}, "len": {}, "buf": {c: {} for c in self.chans}, "gen": {}, "node": None, "call": None, "underflow": None}
                     en = z3.BoolVal(True)
                     extra = []
                     if ch.leaf:
@@ -242,6 +246,12 @@ class System:
                             upd["len"][tg] = tmp["len"][tg]
                             for j in range(self.cap[tg]):
                                 upd["buf"][tg][j] = tmp["buf"][tg][j]
+                        elif op == "notify_register":
+                            extra.append(R == R64(cur["gen"][tg]))
+                        elif op == "notify_all":
+                            upd["gen"][tg] = cur["gen"][tg] + BV(1)
+                        elif op == "notify_await":
+                            en = z3.UGT(cur["gen"][tg], BV(arg))
                         elif op == "spsc_len":
                             extra.append(R == R64(cur["len"][tg]))
                         else:
@@ -273,6 +283,8 @@ class System:
             for j in range(self.cap[c]):
                 S.add(nxt["buf"][c][j] == fold(lambda u, c=c, j=j: u["buf"][c].get(j), cur["buf"][c][j]))
         S.add(nxt["underflow"] == fold(lambda u: u["underflow"], cur["underflow"]))
+        for n_ in self.notifies:
+            S.add(nxt["gen"][n_] == fold(lambda u, n_=n_: u["gen"].get(n_), cur["gen"][n_]))
         for ti, t in enumerate(self.threads):
             e_node, e_call = cur["node"][ti], cur["call"][ti]
             for tj, n, ch, cond, upd, _ in cases:
@@ -334,6 +346,20 @@ class System:
                 if (not c.leaf) and c.op == opname:
                     alts.append(z3.And(self.st[s]["node"][ti] == n.id, t.subst(guard, c.names)))
         return z3.Or(alts) if alts else z3.BoolVal(False)
+
+    def blocked_at(self, ti, s, opname):
+        """thread ti's next operation is `opname` (guard holds) and it is not enabled in state s"""
+        t = self.threads[ti]
+        alts = []
+        for c in self.cases.get(min(s, self.K - 1), []):
+            pass
+        for n in t.nodes:
+            if n.leaf or n.op is None:
+                continue
+            for guard, c, _ in n.children:
+                if (not c.leaf) and c.op == opname:
+                    alts.append((n, c, guard))
+        return alts
 
     def reached_leaf(self, ti, s, pred):
         t = self.threads[ti]
